@@ -27,6 +27,10 @@ OUTSIDE = {
  "r13-C03-v2": "whether an informational status counts as 'written' is C13's to say (third review; C13 reports it)",
  "r14-C03-v2": "whether a Write of no bytes counts as 'written' is C13's to say (third review; C13 reports it)",
  "r16-C11-v1": "the defect shows through Headers(), which is not part of C11 (C09 and C10 report it)",
+ "C07-v1": "needs nested groups with spare capacity: C07 declares flat routes (C03 and C11 report it)",
+ "r10-C01-v2": "the defect is in how group paths are joined: C01 registers flat route sets (C11 reports it)",
+ "r2-C01-v2": "needs a registration refused on its optional last segment: C01 speaks of registered sets (C08 reports it)",
+ "r6-C18-v2": "only a handler's own writing into Params() of a bind-less route exposed it (second review); the pair of requests of C18 now uses a route with a bind",
  "r14-C01-v1": "the defect is in Group: C01 registers flat route sets (C11 reports it)",
  "r14-C01-v2": "needs a refused registration: C01 speaks of registered sets (C08 reports it)",
  "r14-C03-v1": "needs a before-function that panics: none in C03 (C13 and C15 report it)",
